@@ -52,6 +52,16 @@ def regen_tables(ctx):
     return t
 
 
+def finding_listed(fid):
+    """is a finding with this id recorded for C13 (any status)?  Corpus classes that exercise a reported but
+    not yet recorded observation are generated only once the coordinator has recorded it."""
+    try:
+        kf = json.load(open(os.path.join(C.VERIF, "known_findings.json")))
+    except (OSError, ValueError):
+        return False
+    return any(f.get("id") == fid and f.get("property") == "C13" for f in kf.get("findings", []))
+
+
 def nm_lines(obj):
     r = C.sh(["nm", "-l", obj])
     out = []
@@ -80,6 +90,26 @@ def compiled_corpus(ctx, gen, nfiles, nfun, nrust):
         r = C.sh([cxx, "-std=gnu++17", "-g", "-O0", "-w", "-c", path, "-o", obj])
         if r.returncode != 0:
             ctx.notes.append("corpus: %s failed on generated file %d: %s" % (cxx, i, r.stdout[-300:]))
+            info["compile_failed"] += 1
+            continue
+        for sym, line in nm_lines(obj):
+            if line in linemap and sym.startswith("_Z"):
+                exp, kind = linemap[line]
+                out.append((sym.encode(), exp, "%s:%s" % (cxx, kind)))
+                info["%s:%s" % (cxx, kind)] += 1
+    # class templates with non-type template arguments (address of function / global / member, references,
+    # literals of every builtin type, nullptr, enums, packs, class-type values) at outer and nested
+    # positions, followed by methods, ctors, dtors, operators, nested classes and nested templates; function
+    # templates whose signature keeps dependent expressions (X…E / DT…E)
+    jobs = [(c, "gnu++17") for c in compilers] + ([("g++", "gnu++20")] if "g++" in compilers else [])
+    for cxx, std in jobs:
+        src, linemap = gen.nttp_source(ctx.rng, cxx20=(std == "gnu++20"), with_float=finding_listed("F10k"))
+        path = os.path.join(d, "nttp-%s-%s.cpp" % (cxx, std))
+        open(path, "w").write(src)
+        obj = path[:-4] + ".o"
+        r = C.sh([cxx, "-std=" + std, "-g", "-O0", "-w", "-c", path, "-o", obj])
+        if r.returncode != 0:
+            ctx.notes.append("corpus: %s -std=%s failed on the non-type-argument file: %s" % (cxx, std, r.stdout[-300:]))
             info["compile_failed"] += 1
             continue
         for sym, line in nm_lines(obj):
